@@ -8,7 +8,7 @@ from .. import fssim
 from . import _ws
 
 ID = 'C15'
-TIERS = {'quick': {'seeds': 15000, 'seconds': 75, 'determinism': 32},
+TIERS = {'quick': {'seeds': 15000, 'seconds': 45, 'determinism': 32},
          'thorough': {'seconds': 900, 'determinism': 256, 'minimise_s': 120}}
 RULE = ('generated directory trees on tmpfs (<= 40 entries, depth <= 3) mixing .py/.pyc/.pyo, '
         'look-alikes (x.pyc.bak, .pyc, pyc, X.PYC, a.b.pyc), __pycache__, ignored directories, '
